@@ -308,7 +308,8 @@ class M(Hooks):
             for si in range(s.street_index + 1):
                 nb_cards += s.streets[si].board_dealing_count
             # (fall-back streets add to boards and are covered per instance)
-            if not self.flags & {'fallback_to_board'} and nb_cards:
+            if not self.flags & {'fallback_to_board'} and nb_cards and \
+                    not (inst is not None and inst.fallback):
                 # each board - not only all boards together - holds exactly
                 # the community cards prescribed so far
                 try:
@@ -360,6 +361,11 @@ def strategy(tier):
         gen.cases(profiles=(5, 6, 5, 0), min_players=8,
                   games=('F7S', 'F7S8', 'FR'), custom=False,
                   **dict(common, unknown='heavy')).map(_manual_showdown),
+        # custom streets that prescribe a hole card and a community card,
+        # full tables: the fall-back meets a street with its own board
+        gen.cases(games=(), custom=True, custom_families=('mixed',),
+                  min_players=7, profiles=(5, 6, 0), boards=(1, 1, 2),
+                  **common),
     )
 
 
